@@ -77,7 +77,8 @@ GRID = {
     "DistPearson5": [[PFv(2.0), PFv(3.0)], [PFv(0.5), PFv(1.0)], [PFv(1.0), PFv(2.0)], [PFv(5.0), PFv(0.5)]],
     "DistPearson6": [[PFv(2.0), PFv(3.0), PFv(1.5)], [PFv(0.5), PFv(2.0), PFv(1.0)], [PFv(1.0), PFv(1.0), PFv(2.0)],
                      [PFv(3.0), PFv(0.6), PFv(0.5)]],
-    "DistPoisson": [[PFv(0.5)], [PFv(3.0)], [PFv(15.0)], [PFv(22.5)], [PFv(60.0)], [PFv(7.5)], [PFv(30.0)], [PFv(200.0)]],
+    "DistPoisson": [[PFv(0.5)], [PFv(3.0)], [PFv(15.0)], [PFv(800.0)], [PFv(22.5)], [PFv(60.0)], [PFv(2000.0)], [PFv(7.5)],
+                    [PFv(30.0)], [PFv(200.0)], [PFv(500.0)], [PFv(730.0)]],      # exp(-rate) subnormal from 708, 0.0 from 745
     "DistTriangular": [[PFv(1.0), PFv(2.0), PFv(4.0)], [PFv(1.0), PFv(1.0), PFv(2.0)], [PFv(1.0), PFv(2.0), PFv(2.0)],
                        [PFv(-2.0), PFv(0.5), PFv(3.0)], [PFv(0.0), PFv(0.001), PFv(1.0)], [PIv(1), PIv(2), PIv(4)]],
     "DistUniform": [[PFv(1.0), PFv(4.0)], [PFv(-2.5), PFv(2.5)], [PFv(0.0), PFv(0.001)]],
@@ -656,7 +657,7 @@ def main(tier: str) -> int:
     tie_suspects = []
     if tie and not run.violations:
         for cls in [c for c in tie.get("classes", []) if c in GRID and c not in explained_classes][:6]:
-            for ps in GRID[cls][:(6 if cls in DISC else 4)]:
+            for ps in GRID[cls][:(7 if cls in DISC else 4)]:
                 tie_suspects.append((cls, ps))
     hit = None
     if broken or tie_suspects:
